@@ -145,6 +145,13 @@ func genC09(t *rapid.T) Case {
 		at := rapid.IntRange(0, len(ops)).Draw(t, "foAt")
 		ops = append(ops[:at:at], append(frag, ops[at:]...)...)
 	}
+	// a content of a megabyte, read through GetReader handles that stay open while it is overwritten and collected
+	if rapid.IntRange(0, 3).Draw(t, "largeHeld") == 0 {
+		k := rapid.IntRange(0, 1).Draw(t, "lhKey")
+		frag := []Op{{K: "set", Key: k, Len: 1<<20 + 1}, {K: "set", Key: k, Len: 5}, {K: "gc"}}
+		at := rapid.IntRange(0, len(ops)).Draw(t, "lhAt")
+		ops = append(ops[:at:at], append(frag, ops[at:]...)...)
+	}
 	if dense { // the collector after every step (and before the first)
 		c.Ops = append(c.Ops, Op{K: "gc"})
 		for _, op := range ops {
